@@ -1,6 +1,7 @@
 package props
 
 import (
+	"io"
 	"strings"
 
 	"golang.org/x/net/html"
@@ -46,7 +47,17 @@ func genC06(t *rapid.T) *Case {
 	if rapid.IntRange(0, 5).Draw(t, "corpusInput") == 0 {
 		in = genCorpusMutation(t)
 	}
-	return &Case{Spec: spec, Input: BStr(in), Ints: []int{dropped}}
+	via := 0
+	if rapid.IntRange(0, 3).Draw(t, "viaReader") == 0 {
+		via = 1 // through SanitizeReader with a reader that has no Len()
+	}
+	if rapid.IntRange(0, 150).Draw(t, "bigToken") == 0 {
+		// one very large text token (well above any internal buffer size), entity-rich or plain
+		unit := rapid.SampledFrom([]string{"lorem ipsum ", "a&amp;b ", "x", "&lt;i&gt;", "\"quoted\" "}).Draw(t, "unit")
+		n := rapid.IntRange(1, 150000/len(unit)).Draw(t, "reps")
+		in = "<p>" + strings.Repeat(unit, n) + "</p>" + in
+	}
+	return &Case{Spec: spec, Input: BStr(in), Ints: []int{dropped, via}}
 }
 
 type sym struct {
@@ -173,7 +184,16 @@ func checkC06(c *Case, r *Rec) error {
 		return nil // outside the property's policy class
 	}
 	in := string(c.Input)
-	out, _ := sanitizeSpec(c.Spec, in)
+	var out string
+	if len(c.Ints) > 1 && c.Ints[1] == 1 && strings.TrimSpace(in) != "" {
+		out = Build(c.Spec, nil).SanitizeReader(struct{ io.Reader }{strings.NewReader(in)}).String()
+		r.Class("via_SanitizeReader_opaque_reader")
+	} else {
+		out, _ = sanitizeSpec(c.Spec, in)
+	}
+	if len(in) > 60000 {
+		r.Class("input_over_60KB")
+	}
 	inToks, outToks := tokenize(in), tokenize(out)
 	fin, fout := flatten(inToks), flatten(outToks)
 	fullClass := true
